@@ -524,7 +524,7 @@ fn check_getter(which: usize, a: &[String], b: &[String], flag: u8) -> CheckResu
         1 => {
             // space separated lists
             let raw = b.iter().enumerate().map(|(i, x)| format!("{}{}", if i == 0 { "" } else { [" ", "  ", "\t", " \n ", "\n  "][(flag as usize + i) % 5] }, x)).collect::<String>();
-            let text = format!("Origin: Debian\nArchitectures: {}\nComponents: {}\nBinary: {}\nArchitecture: {}\n", raw, raw, b.join(" "), b.join(" "));
+            let text = format!("Origin: Debian\nArchitectures: {}\nComponents: {}\nBinary: {}\nArchitecture: {}\nBuild-Tainted-By: {}\n", raw, raw, raw, raw, raw);
             let r = ll::apt::Release::from_str(&text).map_err(|e| Failure { assertion: "infra/getter".into(), message: format!("{:?}: {}", text, e) })?;
             ensure_eq!(r.architectures(), Some(b.to_vec()), "getter/architectures", "Architectures of {:?}", text);
             ensure_eq!(r.components(), Some(b.to_vec()), "getter/components", "Components of {:?}", text);
@@ -533,6 +533,7 @@ fn check_getter(which: usize, a: &[String], b: &[String], flag: u8) -> CheckResu
             ensure_eq!(ch.architecture(), Some(b.to_vec()), "getter/changes-architecture", "Architecture of {:?}", text);
             let bi = ll::buildinfo::Buildinfo::from_str(&text).map_err(|e| Failure { assertion: "infra/getter".into(), message: e.to_string() })?;
             ensure_eq!(bi.binaries(), Some(b.to_vec()), "getter/buildinfo-binaries", "Binary of {:?}", text);
+            ensure_eq!(bi.build_tainted_by(), Some(b.to_vec()), "getter/buildinfo-build-tainted-by", "Build-Tainted-By of {:?}", text);
         }
         2 => {
             // checksum triples, one per line
